@@ -1,17 +1,13 @@
 SPECIFICATION Spec
 CONSTANTS
   MaxObjs = 2
-  UIds <- UAll
-  RowSet <- RowsPairwise
+  UIds <- UMid
+  RowSet <- RowsPlain
   AllowDup = FALSE
   DedupInput = FALSE
-  OfsPlain = FALSE
+  OfsPlain = TRUE
   EmitMod = 1
   EmitRes = 0
 INVARIANT PrefixInv
 INVARIANT PackInv
-INVARIANT IterInv
-INVARIANT IdxInv
-INVARIANT GitInv
-INVARIANT CountInv
 CHECK_DEADLOCK FALSE
